@@ -78,6 +78,13 @@ def run(ctx):
         r.update(H.content(rnd, rnd.randrange(0, 3 * Bb), 0), padding=True)
         traces.append(r.trace(dict(kind='random-cuts'))); ctx.mark((name, 'rnd', q))
     ctx.exhaustive_subspaces.append('%d of the %d call histories of depth <= %d (all of depth <= 3; cont 0..2 blocks / bad continuation / final 0..1 blocks x 5 residue classes / over-long / re-init) over 14 hash objects (round-robin%s)' % (len(uniq), nall, D, ', every seventh on all' if big else ''))
+    # many pieces on one object: 33..48 continuation calls (one block, now and then none or two) before the final piece - whatever a hash object
+    # keeps per call (a window of earlier pieces, a call counter) has had time to overflow
+    for q, name in enumerate(names if big else ['md5', 'sha1', 'sha256', 'sha384', 'blake256', 'blake512', 'md4']):
+        Bb = H.blockbytes(name); r = H.Rec(name); r.init()
+        for j in range(33 + (q * 5) % 16): r.update(H.content(rnd, Bb * (1 if j % 7 else (j // 7) % 3), j % 3), padding=False)
+        r.update(H.content(rnd, 5 + q, 0), padding=True)
+        traces.append(r.trace(dict(kind='many-pieces'))); ctx.mark((name, 'many pieces'))
     # two objects of the same class fed alternately (per-object pad state and counters must not be shared)
     for name in (names if big else ['md5', 'md4', 'sha1', 'sha256', 'sha512', 'blake256']):
         Bb = H.blockbytes(name)
@@ -158,7 +165,7 @@ def run(ctx):
             for cl in rec['bad']:
                 ctx.violation('nilsimsa.update', ('raises:' + e['raised']) if cl['c'] == 'must-not-raise' else 'wrong:digest-of-pieces', dict(op=e['op'], npieces=len(ps), piece_lengths=[len(x) for x in ps][:12], raised=e['raised']),
                               dict(event=e, expected=cl['e']))
-    ctx.exhaustive_subspaces.append('Nilsimsa: every single byte cut of the seeded strings; three-piece cuts with middle pieces of 0..3 bytes; byte-at-a-time feeding')
+    ctx.exhaustive_subspaces.append('hash objects fed with 33..48 continuation pieces before the final piece'); ctx.exhaustive_subspaces.append('Nilsimsa: every single byte cut of the seeded strings; three-piece cuts with middle pieces of 0..3 bytes; byte-at-a-time feeding')
     r = H.Rec('md5'); r.init(); r.update(b'x' * 64, padding=False); r.update(b'tail', padding=True)
     def corrupt(t): t['ev'][1]['bitcnt'][0] += 8; return t
     ctx.binding_selftest('trace/Trace_Hash.tla', dict(alg=H.ALGS['md5'], ev=r.ev), lambda t: len(t['ev']), corrupt, 'Trace_Hash: bit counter after a piece off by 8')
